@@ -804,6 +804,7 @@ def _uncollapse_unary_chains(tree):
     """Recursively uncollapse unary chains.
     """
     unary = tree
+    top = None
     while tree.data['label'].find("+") > -1:
         # tree.parent -> tree -> c1 .. cn
         # tree.parent -> unary -> tree -> c1 .. cn
@@ -817,9 +818,11 @@ def _uncollapse_unary_chains(tree):
         unary.children.append(tree)
         unary.parent = tree.parent
         tree.parent = unary
+        if top is None:
+            top = unary
     for child in trees.children(tree):
         _uncollapse_unary_chains(child)
-    return unary
+    return tree if top is None else top
 
 
 def uncollapse_unary_chains(tree, **params):
